@@ -1,4 +1,5 @@
 import ZChain.Proofs.Finalize
+import ZChain.Generated.C36
 /-!
 # C36 — Finalization picks the common ancestor and extends a single chain
 
@@ -218,6 +219,26 @@ the common ancestor 2 (4 → 2, 5 → 3 → 2) but the two paths never meet at t
 theorem not_level_misses :
     computeFinalizedBlock ⟨[⟨1, 0, 0⟩, ⟨2, 1, 1⟩, ⟨3, 2, 2⟩, ⟨4, 3, 2⟩, ⟨5, 3, 3⟩], [(3, [⟨4, 3, 2⟩, ⟨5, 3, 3⟩])]⟩ 0 3 = none := by
   decide
+
+/-! ## the guards of the source are the guards of the model (translator obligation)
+
+`Generated/C36.lean` is rewritten from the current Go source on every run (harness/cmd/xc36). The model compares round
+numbers exactly where the code does and its only arithmetic is `roundNumber--`. A rewritten guard or new arithmetic
+(which could wrap on int64 for inputs no generator reaches) makes these equalities false: the check fails closed. -/
+
+theorem cfb_guards_as_modelled :
+    ZChain.Generated.C36.computeFinalizedBlockGuards =
+      ["if b.Hash == hash", "for", "if roundNumber <= lfbr", "if len(notarizedBlocks) > 0", "if rd == nil",
+       "if len(notarizedBlocks) == 0", "for", "if b.PrevBlock == nil", "if pb == nil",
+       "if isIn(prevNotarizedBlocks, b.PrevHash)", "if len(notarizedBlocks) == 1", "if len(notarizedBlocks) != 1",
+       "if fb.Round == r.GetRoundNumber()"] ∧
+    ZChain.Generated.C36.computeFinalizedBlockArith = ["roundNumber--"] := by decide
+
+theorem common_ancestor_guards_as_modelled :
+    ZChain.Generated.C36.commonAncestorGuards =
+      ["if b1 == nil || b2 == nil", "if b1 == b2 || b1.Hash == b2.Hash", "if b2.Round < b1.Round",
+       "for b2.Round != b1.Round", "if b2 == nil", "for b1 != b2", "if b1 == nil", "if b2 == nil"] ∧
+    ZChain.Generated.C36.commonAncestorArith = [] := by decide
 
 /-! ## non-vacuity -/
 
